@@ -417,6 +417,25 @@ static void combine_case_sw(int sw) {
 }
 static void combine_case(void) { combine_case_sw(-1); }
 
+/* a matrix wider than any cache-derived strip (more than 65536 columns make the strip height of the triangular column
+ * permutation round down to nothing with a 4 KiB L1): sparse content, a handful of swaps */
+static void wide_tri_case(void) {
+  int m = 3, n = 66000 + vh_randint(0, 70);
+  mzd_t *A = vh_mk(m, n, 0);
+  for (int i = 0; i < m; i++)
+    for (int t = 0; t < 24; t++) { int j = vh_randint(0, n - 1); A->data[(size_t)i * A->rowstride + j / 64] |= (word)1 << (j % 64); }
+  mzp_t *P = mzp_init(n);
+  for (int t = 0; t < 6; t++) { int i = vh_randint(0, n - 2); P->values[i] = vh_randint(i, n - 1); }
+  vh_ev_t e;
+  vh_begin(&e, "apply_p_right_trans_tri");
+  vh_pa(&e, "P", P->values, n);
+  vh_opnd(&e, "A", 'b', A); vh_pre(&e);
+  if (VH_CALL(&e)) mzd_apply_p_right_trans_tri(A, P);
+  VH_END(&e); vh_post(&e);
+  mzp_free(P);
+  vh_free_all();
+}
+
 int fam_rowops(const vh_args_t *a) {
   int ncases = a->cases ? a->cases : (a->tier ? 6000 : 1200);
   static const int NC[] = {1, 2, 63, 64, 65, 100, 127, 128, 130, 200, 257, 320};
@@ -437,6 +456,12 @@ int fam_rowops(const vh_args_t *a) {
     VH_CASE_END
   }
   if (strstr(a->extra, "nosweep")) return 0;
+  if (!vh_views && VH_SHARD(a, 4000000L)) {
+    vh_case_seed(a, 4000000L);
+    VH_CASE(4000000L)
+    wide_tri_case();
+    VH_CASE_END
+  }
   /* row combination: every row width 1..6 words x residue x in-place x alignment of destination and source
    * (the SSE2 paths depend on the 16-byte alignment of the row starts, i.e. on the word offsets of windows) */
   for (long sw = 0; sw < 6 * 3 * 2 * 2 * 2; sw++) {
